@@ -74,6 +74,14 @@ theorem parser_image_printable (f : Nat) (ts : List Tok) (q : Query) (hg : goodB
     (h : refParseQ f ts = some q) : Printable q = true :=
   refParse_printable f ts q (good_of_goodB ts hg) h
 
+/-- STRING VALUES: `Printable` asks of a string literal that printing it with `jsonEncodeString` and
+    decoding the text with the lexer gives it back (`okLit`, decidable).  Every valid UTF-8 byte
+    string is such a value (all escapes the encoder writes — `\"` `\\` `\b` `\f` `\n` `\r` `\t`
+    `\u00XX` — decode to the byte they stand for, multi-byte sequences are copied and decode to
+    themselves); `not_printable_undecodable_string` shows that an invalid byte is not. -/
+theorem valid_utf8_string_is_printable (v : Bytes) (h : Utf8.valid v = true) : okLit v = true :=
+  okLit_of_valid v h
+
 /-- `Printable` contains that shape -/
 theorem printable_has_operator_shape (q : Query) (h : Printable q = true) : precOK true 1 q = true :=
   precOK_of_okQ q true 1 h
